@@ -17,7 +17,13 @@ def fresh_lib_curve(mc, register=False):
     objects, so runs are independent of each other."""
     e = E()
     from ecdsa import ellipticcurve as le, curves as lc
-    cf = le.CurveFp(mc.p, mc.a if mc.a != mc.p - 3 else -3, mc.b, mc.h)
+    a = mc.a if mc.a != mc.p - 3 else -3
+    if mc.p >= (1 << 24):
+        # a private copy of a named curve must be *equal* (CurveFp.__eq__
+        # compares p, a, b as given) to the library's own object, which the
+        # DER/PEM loaders return: use the library's representation of a
+        a = int(global_lib_curve(mc).curve.a())
+    cf = le.CurveFp(mc.p, a, mc.b, mc.h)
     g = le.PointJacobi(cf, mc.gx, mc.gy, 1, mc.n, generator=True)
     c = lc.Curve(mc.name, cf, g, tuple(mc.oid), None)
     return c
